@@ -29,7 +29,7 @@ func init() {
 		Rule: "RateLimitedIssuer.Evaluate(bytes) on requests built two ways: by pat-go's client, and entirely by the harness (own encoder, own HPKE sealing with the AAD of the draft, own key-blinded signer over crypto/ecdsa). Honest requests for a registered origin must be served and the response must finalize to a token valid under rsa.VerifyPSS. " +
 			"Must be rejected with an error and a nil response: every single-bit flip of an accepted encoding (exhaustive), every truncation, a trailing byte, a missing signature, unregistered origins (near misses of the registered names), requests sealed to another issuer's name key (key id kept and replaced), requests re-signed by an unrelated key, request key replaced and correctly re-signed (only the AAD binding catches it), AAD variants that drop or alter one component, inner requests truncated before encryption (with the empty origin registered). " +
 			"Differential part: on an issuer whose name key is derived from a seed known to the harness (verif-tagged hook) the harness decides every generated input itself (own parser, own HPKE open through go-hpke, own unpadding, origin lookup, crypto/ecdsa) - multi-bit and byte mutations, field splices between honest requests with and without re-signing, replaced-and-re-signed name key ids, (r, N-s), padded-origin and inner-request variants, foreign name keys, altered AADs - and Evaluate must agree. distinct_nontrivial = distinct (request, tampering class, position) and (class, reference reason) keys",
-		Floors:      []string{"served_pat_go_client", "served_harness_built", "response_finalized_valid", "bitflips_rejected", "truncations_rejected", "unregistered_origin_rejected", "foreign_name_key_rejected", "resigned_rejected", "aad_binding_rejected", "inner_truncated_rejected", "failed_registration_origin_rejected", "served_after_many_late_refusals", "differential_agree_accept", "differential_agree_reject", "differential_reject_signature", "differential_reject_hpke-open", "differential_reject_unregistered-origin", "differential_reject_outer-parse"},
+		Floors:      []string{"served_pat_go_client", "served_harness_built", "response_finalized_valid", "bitflips_rejected", "truncations_rejected", "unregistered_origin_rejected", "foreign_name_key_rejected", "resigned_rejected", "aad_binding_rejected", "inner_truncated_rejected", "failed_registration_origin_rejected", "served_after_many_late_refusals", "client_requests_accepted_by_reference", "differential_agree_accept", "differential_agree_reject", "differential_reject_signature", "differential_reject_hpke-open", "differential_reject_unregistered-origin", "differential_reject_outer-parse"},
 		Assumptions: []string{"enumerated part: acceptance is fixed by construction of each case; differential part: the issuer's name key comes from a known seed through the verif hook", "an inner request with trailing bytes after the padded origin is only counted (no rule in the statement)"},
 		Run:         runC07,
 	})
@@ -611,6 +611,25 @@ func c07Differential(c *core.Ctx) {
 		pa, _ := t3ParseRequest(a.enc)
 		pb, _ := t3ParseRequest(b.enc)
 		judge(a.enc, "built")
+		// a request made by pat-go's OWN client, judged by the independent reference (parse, HPKE open with the draft's AAD,
+		// padding, signature by crypto/ecdsa): the client's side of every convention is checked against the reference,
+		// not only against pat-go's own issuer
+		if i%3 == 0 {
+			cl := type3.NewRateLimitedClientFromSecret(ScalarBytes(r, elliptic.P384().Params().N, 48))
+			po := registered[r.IntN(len(registered))]
+			st, err := cl.CreateTokenRequest(r.Bytes(r.IntN(30)), r.Bytes(32), ScalarBytes(r, elliptic.P384().Params().N, 48), issuer.TokenKeyID(), issuer.TokenKey(), po, issuer.NameKey())
+			if err != nil {
+				c.Violation("Evaluate:differential:client-create-error", "pat-go's client failed to create a request for a registered origin: "+err.Error(), map[string]any{"origin": po})
+			} else {
+				enc := clone(st.Request().Marshal())
+				if ok, why, _ := f.decide(enc); !ok {
+					c.Violation("Evaluate:differential:client-request-rejected-by-reference", "a request made by pat-go's own client is rejected by the independent reference ("+why+"): client and specification disagree on a convention", map[string]any{"origin": po, "request": core.Hex(enc)})
+				} else {
+					c.Class("client_requests_accepted_by_reference")
+				}
+				judge(enc, "pat-go-client")
+			}
+		}
 		// multi-bit and byte-level mutations
 		for k := 0; k < 12; k++ {
 			m := clone(a.enc)
